@@ -388,7 +388,9 @@ mod ir_builder {
 
             rule op_contract_call() -> IrAstOperation
                 = "contract_call" _
-                ty:ast_ty() _ name:id() _
+                // The name is optional (it is not set for contract calls under the new encoding,
+                // and the printer then prints nothing): a name is an id not followed by a comma.
+                ty:ast_ty() _ name:(n:id() !"," { n })? _
                 params:id() comma() coins:id() comma() asset_id:id() comma() gas:id() _ {
                     IrAstOperation::ContractCall(ty, name, params, coins, asset_id, gas)
             }
@@ -932,7 +934,7 @@ mod ir_builder {
         Cbr(String, String, Vec<String>, String, Vec<String>),
         Cmp(Predicate, String, String),
         Const(IrAstTy, IrAstConst),
-        ContractCall(IrAstTy, String, String, String, String, String),
+        ContractCall(IrAstTy, Option<String>, String, String, String, String),
         GetElemPtr(String, IrAstTy, Vec<String>),
         GetLocal(String),
         GetGlobal(Vec<String>),
@@ -1544,7 +1546,7 @@ mod ir_builder {
                             .append(context)
                             .contract_call(
                                 ir_ty,
-                                Some(name),
+                                name,
                                 *val_map.get(&params).unwrap(),
                                 *val_map.get(&coins).unwrap(),
                                 *val_map.get(&asset_id).unwrap(),
